@@ -545,7 +545,16 @@ func main() {
 			os.Exit(1)
 		}
 	}
-	fmt.Printf("extract: %d access sites, %d commands, %d facts\n", len(table), len(commands), len(facts))
+	// the translated fragments (translate.go): Generated/Translated.lean next to the facts
+	trText, trOK := translateUnits(repo)
+	trOut := filepath.Join(filepath.Dir(out), "Translated.lean")
+	if oldT, _ := os.ReadFile(trOut); string(oldT) != trText {
+		if err := os.WriteFile(trOut, []byte(trText), 0o644); err != nil {
+			fmt.Fprintln(os.Stderr, err)
+			os.Exit(1)
+		}
+	}
+	fmt.Printf("extract: %d access sites, %d commands, %d facts, %d/%d fragments translated\n", len(table), len(commands), len(facts), trOK, len(units))
 }
 
 // reentrantLocking finds methods that, while holding a mutex field of their receiver, call a method of the same
